@@ -435,6 +435,10 @@ func init() {
 						raw(term.KBinary, op1, raw(term.KUnary, u, a), b),
 						raw(term.KBinary, op1, a, raw(term.KUnary, u, b)),
 						raw(term.KBinary, op1, raw(term.KBinary, op2, a, raw(term.KUnary, u, b)), cc),
+						// a unary operator over a binary operand, on either side of another operator
+						raw(term.KBinary, op1, a, raw(term.KUnary, u, raw(term.KBinary, op2, b, cc))),
+						raw(term.KBinary, op1, raw(term.KUnary, u, raw(term.KBinary, op2, a, b)), cc),
+						raw(term.KBinary, op1, raw(term.KBinary, op1, a, raw(term.KUnary, u, b)), raw(term.KBinary, op2, b, cc)),
 						raw(term.KUnary, u, raw(term.KUnary, c11Unary[(idx+1)%4], raw(term.KBinary, op2, a, b))),
 					)
 				}
@@ -449,6 +453,16 @@ func init() {
 				)
 				for _, t := range trees {
 					c11Tree(c, t, c.R)
+				}
+				// the bare token sequences around a unary operator, against
+				// the reference grammar (a printed tree never leaves a unary
+				// operand of lower precedence without parentheses)
+				id := func(s string) ref.PTok { return ref.PTok{Kind: "ident", Text: s} }
+				op := func(s string) ref.PTok { return ref.PTok{Kind: "op", Text: s} }
+				for _, u := range c11Unary {
+					c11Tokens(c, []ref.PTok{id("a"), op(op1), op(u), id("b"), op(op2), id("c")})
+					c11Tokens(c, []ref.PTok{op(u), id("a"), op(op1), id("b"), op(op2), id("c")})
+					c11Tokens(c, []ref.PTok{id("a"), op(op1), op(u), op(u), id("b"), op(op2), op(u), id("c")})
 				}
 			}},
 			{Name: "random-trees", N: func(tier string) uint64 {
